@@ -211,6 +211,11 @@ def expected_pairs(schema_doc, rows):
     out = []
     for a in sch.assocs:
         pairs = set()
+        if not a['src_keys']:
+            # an association without key attributes (unformalized) has no referring instances: nothing to join,
+            # which is also what creating the same rows through the API gives
+            out.append(pairs)
+            continue
         for s in rows:
             if s['kind'].upper() != a['src'].upper():
                 continue
